@@ -118,6 +118,7 @@ type Exec struct {
 	injDone             map[string]bool
 	pathCleanDone       bool
 	concatDone          bool
+	indexedAccess       bool
 	reachCount          map[string]int
 	pathAxiomsDone      bool
 	assignSrcType       types.Type
@@ -791,6 +792,10 @@ func (x *Exec) allocAddr(st *State, hint string) *Term {
 	// allocation time stamps: the new object is the one allocated at the next tick
 	st.alloc = Add(st.alloc, IntLit(1))
 	st.assumeRaw(Eq(App("alloctime", SInt, a), st.alloc))
+	if _, ok := st.ghost["hijacked"]; ok {
+		// nothing can have hijacked a responder that did not exist yet
+		st.assumeRaw(Eq(Select(st.ghostArr("hijacked", SInt), a), IntLit(0)))
+	}
 	return a
 }
 
@@ -889,7 +894,7 @@ func (x *Exec) mapSet(st *State, m MapV, key *Term, v Value) {
 	if x.sumRuleFor(m) != nil {
 		x.lastMapOld, _ = x.mapGet(st, m, key)
 	}
-	x.guardCheck(st, ks, m.ID, true)
+	x.guardCheckIndexed(st, ks, m.ID, true)
 	st.heap[ks+"#present"] = Store(presArr, m.ID, Store(Select(presArr, m.ID), key, TTrue))
 	card := st.heapArr(ks+"#card", SInt)
 	st.heap[ks+"#card"] = Store(card, m.ID, Add(Select(card, m.ID), Ite(was, IntLit(0), IntLit(1))))
@@ -912,7 +917,7 @@ func (x *Exec) mapSet(st *State, m MapV, key *Term, v Value) {
 
 func (x *Exec) mapDelete(st *State, m MapV, key *Term) {
 	ks := mapKeyStr(m)
-	x.guardCheck(st, ks, m.ID, true)
+	x.guardCheckIndexed(st, ks, m.ID, true)
 	presArr := st.heapArr(ks+"#present", ArrOf(SBool))
 	was := Select(Select(presArr, m.ID), key)
 	old, _ := x.mapGet(st, m, key)
@@ -1485,6 +1490,7 @@ func (x *Exec) indexExpr(fr *Frame, e *ast.IndexExpr, st *State, k func(*State, 
 				x.assumeLoaded(st, v)
 				k(st, v)
 			case MapV:
+				x.guardCheckIndexed(st, mapKeyStr(b), b.ID, false)
 				v, _ := x.mapGet(st, b, x.keyTerm(st, iv))
 				k(st, v)
 			case PtrV:
